@@ -255,14 +255,15 @@ evkind(const struct ev_s *e)
 }
 
 /* ---------------- enabled events ---------------- */
-static int narrow;	/* --opt alpha=narrow */
+static int narrow;	/* --opt alpha=narrow | narrow2 (2: a second UID with MAX-SIMUL 1) */
+static int collide;	/* --opt uids=collide: C04 with the three UIDs C11 uses (hashes that make the table grow by more than double) */
 
 static int
 enabled(struct ev_s *ev, int max)
 {
 	int n = 0;
 	const int nusers = prop == 11 ? 2 : 1;
-	const int nuids = prop == 11 ? 3 : (narrow && prop == 4) ? 1 : 2;
+	const int nuids = prop == 11 ? 3 : (collide && prop == 4) ? 3 : (narrow == 1 && prop == 4) ? 1 : 2;
 
 #define PUSH(...)	do { if (n < max) ev[n++] = (struct ev_s){__VA_ARGS__}; } while (0)
 	/* clock events first: they are the simplest */
@@ -313,7 +314,14 @@ enabled(struct ev_s *ev, int max)
 	/* commands */
 	for (int u = 0; u < nusers; u++) {
 		for (int k = 0; k < nuids; k++) {
-			if (prop == 4 && narrow) {
+			if (prop == 4 && collide) {
+				/* three UIDs whose hashes force the table-growth path, one schedule each */
+				PUSH(E_ADD, u, k, k == 2 ? 2 : 0);
+			} else if (prop == 4 && narrow && k == 1) {
+				/* narrow2: the second UID has six occurrences a second apart and MAX-SIMUL 1, so that
+				 * starts with the no-run flag happen legitimately next to the first UID's plain starts */
+				PUSH(E_ADD, u, k, 5);
+			} else if (prop == 4 && narrow) {
 				/* one UID, two short schedules, on-time wake-ups only: room for long histories */
 				PUSH(E_ADD, u, k, 1);
 				PUSH(E_ADD, u, k, 2);
@@ -981,6 +989,269 @@ sweep_limit(int N)
 	VT->traces++;
 }
 
+/* C11 linear histories with many requests / many UIDs (what the bounded exploration cannot reach by depth) */
+static int
+busy_add(unsigned u, const char *uid)
+{
+	char req[512], st0[32];
+	struct hx_reply_s rp;
+	size_t o = (size_t)snprintf(req, sizeof(req), "BEGIN:VCALENDAR\nVERSION:2.0\nMETHOD:PUBLISH\nBEGIN:VEVENT\nUID:%s\nSUMMARY:job\nDTSTART:%s\nEND:VEVENT\nEND:VCALENDAR\n",
+				    uid, (tpl_stamp(st0, sizeof(st0), HX_T0 + 3600), st0));
+	hx_request(&rp, u, req, o);
+	VT->transitions++;
+	return rp.nsucc == 1 && rp.nfail == 0;
+}
+
+static int
+busy_cancel(unsigned u, const char *uid)
+{
+	char req[512];
+	struct hx_reply_s rp;
+	size_t o = (size_t)snprintf(req, sizeof(req), "BEGIN:VCALENDAR\nVERSION:2.0\nMETHOD:CANCEL\nBEGIN:VEVENT\nUID:%s\nEND:VEVENT\nEND:VCALENDAR\n", uid);
+	hx_request(&rp, u, req, o);
+	VT->transitions++;
+	return rp.nsucc == 1 && rp.nfail == 0;
+}
+
+static int
+busy_find(const char *hay, size_t hz, const char *needle, size_t nz)
+{
+	for (size_t o = 0; o + nz <= hz; o++) {
+		if (hay[o] == needle[0] && !memcmp(hay + o, needle, nz)) return 1;
+	}
+	return 0;
+}
+
+/* number of "UID:" lines in user U's queue file, and whether each of the N names (printf pattern PAT with index) is there */
+static int
+busy_file_has(unsigned u, const char *pat, int n, int *nuidlines, char *missing, size_t mz)
+{
+	char fn[48];
+	const struct hx_file_s *f = NULL;
+	int ok = 1;
+	snprintf(fn, sizeof(fn), "echsq_%u.ics", u);
+	for (int i = 0; i < HX_NFILES; i++) if (hx_files[i].live && !strcmp(hx_files[i].name, fn)) f = &hx_files[i];
+	*nuidlines = 0;
+	missing[0] = '\0';
+	if (f == NULL) {
+		snprintf(missing, mz, "no file %s", fn);
+		return n == 0;
+	}
+	for (size_t o = 0; o + 4 < f->len; o++) {
+		if ((o == 0 || f->data[o - 1] == '\n') && !memcmp(f->data + o, "UID:", 4)) (*nuidlines)++;
+	}
+	for (int i = 0; i < n && ok; i++) {
+		char line[96];
+		size_t ll = (size_t)snprintf(line, sizeof(line), "\nUID:");
+		ll += (size_t)snprintf(line + ll, sizeof(line) - ll, pat, i);
+		ll += (size_t)snprintf(line + ll, sizeof(line) - ll, "\n");
+		if (!busy_find(f->data, f->len, line, ll)) {
+			snprintf(missing, mz, "%.*s", (int)(ll - 7), line + 5);
+			ok = 0;
+		}
+	}
+	return ok && *nuidlines == n;
+}
+
+static void
+busy_mode(int variant)
+{
+	char uid[64], miss[96], shape[64];
+	struct hx_reply_s rp;
+	int nl;
+
+	if (variant <= 1) {
+		/* 16 acknowledged requests of one user, then one of another (variant 0) or of the same (1), the minutely
+		 * checkpoint, then the listing of the user whose request came 17th */
+		const unsigned late = variant == 0 ? 1001 : 1000;
+		snprintf(hist, sizeof(hist), "16 x ADD(1000, n-<i>), ADD(%u, m-0), checkpoint timer, GET /queue by %u", late, late);
+		vd_desc("%s", hist);
+		snprintf(shape, sizeof(shape), "busy/17-notes/%s", variant ? "same-user" : "other-user");
+		for (int i = 0; i < 16; i++) {
+			snprintf(uid, sizeof(uid), "n-%d", i);
+			if (!busy_add(1000, uid)) { report("reply", shape, "ADD(1000,%s) refused", uid); return; }
+		}
+		if (!busy_add(late, "m-0")) { report("reply", shape, "ADD(%u,m-0) refused", late); return; }
+		cptim_cb(hx_ctx->loop, NULL, 0);
+		VT->transitions++;
+		{
+			const char *get = "GET /queue HTTP/1.1\r\n\r\n";
+			hx_request(&rp, late, get, strlen(get));
+			VT->transitions++;
+			if (strstr(rp.buf, "\nUID:m-0\n") == NULL) {
+				report("list-missing", shape, "after 17 acknowledged requests and a checkpoint, the reply to %u (http %d) does not list its task m-0", late, rp.http);
+				return;
+			}
+		}
+		if (!busy_file_has(1000, "n-%d", 16, &nl, miss, sizeof(miss)) && variant == 0) {
+			report("queue-file", shape, "user 1000's queue file holds %d UIDs, %s is missing", nl, miss[0] ? miss : "none");
+			return;
+		}
+	} else {
+		/* many distinct UIDs in one daemon life */
+		const int N = variant == 2 ? 300 : 1500;
+		snprintf(hist, sizeof(hist), "%d x ADD(1000, job-<i>@bulk.example), 3 x ADD(1001, few-<i>), checkpoint timer, the files, GET /queue by 1001, then CANCEL of every UID by its owner", N);
+		vd_desc("%s", hist);
+		snprintf(shape, sizeof(shape), "busy/many-uids");
+		for (int i = 0; i < N; i++) {
+			snprintf(uid, sizeof(uid), "job-%d@bulk.example", i);
+			if (!busy_add(1000, uid)) { report("reply", shape, "ADD(1000,%s) refused", uid); return; }
+			if (i % 100 == 99) {
+				vd_beat();
+				/* keep the change notes below the dump-everybody threshold now and then */
+				cptim_cb(hx_ctx->loop, NULL, 0);
+			}
+		}
+		for (int i = 0; i < 3; i++) {
+			snprintf(uid, sizeof(uid), "few-%d", i);
+			if (!busy_add(1001, uid)) { report("reply", shape, "ADD(1001,%s) refused", uid); return; }
+		}
+		cptim_cb(hx_ctx->loop, NULL, 0);
+		VT->transitions++;
+		if (!busy_file_has(1000, "job-%d@bulk.example", N, &nl, miss, sizeof(miss))) {
+			report("queue-file", shape, "user 1000 queued %d UIDs, its queue file holds %d UID lines, first one missing: %s", N, nl, miss[0] ? miss : "none");
+			return;
+		}
+		if (!busy_file_has(1001, "few-%d", 3, &nl, miss, sizeof(miss))) {
+			report("queue-file", shape, "user 1001 queued 3 UIDs, its queue file holds %d UID lines, first one missing: %s", nl, miss[0] ? miss : "none");
+			return;
+		}
+		{
+			const char *get = "GET /queue HTTP/1.1\r\n\r\n";
+			hx_request(&rp, 1001, get, strlen(get));
+			for (int i = 0; i < 3; i++) {
+				char pat[32];
+				snprintf(pat, sizeof(pat), "\nUID:few-%d\n", i);
+				if (strstr(rp.buf, pat) == NULL) { report("list-missing", shape, "reply to 1001 does not list few-%d", i); return; }
+			}
+			if (strstr(rp.buf, "bulk.example") != NULL) { report("list-leak", shape, "reply to 1001 lists a task of user 1000"); return; }
+		}
+		for (int i = 0; i < N; i++) {
+			snprintf(uid, sizeof(uid), "job-%d@bulk.example", i);
+			if (i % 100 == 0) vd_beat();
+			if (!busy_cancel(1000, uid)) { report("reply", shape, "CANCEL(1000,%s) of a queued task refused", uid); return; }
+		}
+		for (int i = 0; i < 3; i++) {
+			snprintf(uid, sizeof(uid), "few-%d", i);
+			if (!busy_cancel(1001, uid)) { report("reply", shape, "CANCEL(1001,%s) of a queued task refused", uid); return; }
+		}
+		{
+			struct hx_task_s obs[HX_MAXTASKS];
+			int n = hx_observe(obs);
+			if (n) { report("task-lingers", shape, "%d tasks left after every UID was cancelled, e.g. %s", n, obs[0].uid); return; }
+		}
+	}
+	VT->traces++;
+}
+
+/* a task WITHOUT a limit with K (64, 65) jobs running at once is cancelled; a task with limit 2 is added; the old
+ * jobs exit one by one while the new task's occurrences come due: every start of the new task is judged by its own
+ * two jobs only */
+static void
+sweep_unlimited(int K)
+{
+	char req[1024], st0[32], shape[64];
+	struct hx_reply_s rp;
+	size_t o;
+	int own = 0;	/* jobs of the new task alive */
+	int ypids[8], ny = 0;
+
+	snprintf(hist, sizeof(hist), "ADD(X, SECONDLY x200, no limit), %d on-time ticks (%d jobs alive), CANCEL(X), ADD(Y, SECONDLY x200, MAX-SIMUL:2), then alternately EXIT(oldest job of X) and a tick, 8 times", K, K);
+	vd_desc("%s", hist);
+	snprintf(shape, sizeof(shape), "sweep/unlimited-%d-jobs", K);
+	o = (size_t)snprintf(req, sizeof(req), "BEGIN:VCALENDAR\nVERSION:2.0\nMETHOD:PUBLISH\nBEGIN:VEVENT\nUID:X\nSUMMARY:job\nDTSTART:%s\nRRULE:FREQ=SECONDLY;COUNT=200\nEND:VEVENT\nEND:VCALENDAR\n", (tpl_stamp(st0, sizeof(st0), HX_T0 + 1), st0));
+	hx_request(&rp, 1000, req, o);
+	if (rp.nsucc != 1) { report("reply", shape, "task refused"); return; }
+	for (int k = 1; k <= K; k++) {
+		int before = hx_nspawns;
+		hx_tick(HX_T0 + k + 0.001);
+		VT->transitions++;
+		if (hx_nspawns != before + 1 || hx_spawns[hx_nspawns - 1].nd) {
+			report("spawn-mode", shape, "no limit, %d jobs alive: occurrence %d was %s", k - 1, k, hx_nspawns == before ? "not started" : "started with the no-run flag");
+			return;
+		}
+	}
+	if (hx_nchld != K) { report("run-unsupervised", shape, "%d jobs run, the daemon watches %d", K, hx_nchld); return; }
+	o = (size_t)snprintf(req, sizeof(req), "BEGIN:VCALENDAR\nVERSION:2.0\nMETHOD:CANCEL\nBEGIN:VEVENT\nUID:X\nEND:VEVENT\nEND:VCALENDAR\n");
+	hx_request(&rp, 1000, req, o);
+	VT->transitions++;
+	if (rp.nsucc != 1) { report("reply", shape, "cancel refused"); return; }
+	o = (size_t)snprintf(req, sizeof(req), "BEGIN:VCALENDAR\nVERSION:2.0\nMETHOD:PUBLISH\nBEGIN:VEVENT\nUID:Y\nSUMMARY:job\nDTSTART:%s\nRRULE:FREQ=SECONDLY;COUNT=200\nX-ECHS-MAX-SIMUL:2\nEND:VEVENT\nEND:VCALENDAR\n", (tpl_stamp(st0, sizeof(st0), HX_T0 + K + 1), st0));
+	hx_request(&rp, 1000, req, o);
+	VT->transitions++;
+	if (rp.nsucc != 1) { report("reply", shape, "second task refused"); return; }
+	for (int r = 0; r < 8; r++) {
+		int before, want_nd;
+		/* the oldest job of X goes */
+		for (int c = 0; c < hx_nchld; c++) {
+			int mine = 0;
+			for (int q = 0; q < ny; q++) mine |= hx_chld[c]->pid == ypids[q];
+			if (!mine) { hx_exit_child(c, 0); break; }
+		}
+		VT->transitions++;
+		before = hx_nspawns;
+		hx_tick(HX_T0 + K + 1 + r + 0.001);
+		VT->transitions++;
+		want_nd = own >= 2;
+		if (hx_nspawns != before + 1) {
+			report("spawn-count", shape, "round %d: %d spawns instead of 1", r, hx_nspawns - before);
+			return;
+		}
+		if (hx_spawns[hx_nspawns - 1].nd != want_nd) {
+			report("spawn-mode", shape, "limit 2, %d of its own jobs alive (and %d of the cancelled task): occurrence %d was started %s", own, K - 1 - r, r + 1,
+			       hx_spawns[hx_nspawns - 1].nd ? "with the no-run flag" : "for real");
+			return;
+		}
+		if (!want_nd) {
+			if (ny < 8) ypids[ny++] = hx_spawns[hx_nspawns - 1].pid;
+			own++;
+		}
+		if (r == 4) {
+			/* one of Y's own jobs ends: the next occurrence runs for real again */
+			for (int c = 0; c < hx_nchld; c++) {
+				if (hx_chld[c]->pid == ypids[0]) { hx_exit_child(c, 0); own--; ypids[0] = -1; break; }
+			}
+			VT->transitions++;
+		}
+	}
+	VT->traces++;
+}
+
+/* a limit on the calendar is a default only: an event's own limit wins, an event without one inherits */
+static void
+sweep_inherit(int which)
+{
+	static const struct { int cal, ev, eff; } T[] = {{5, 1, 1}, {1, 3, 3}, {2, 0, 2}};
+	char req[1024], st0[32], shape[64], evl[48] = "";
+	struct hx_reply_s rp;
+	size_t o;
+	const int eff = T[which].eff;
+
+	snprintf(hist, sizeof(hist), "ADD(X, SECONDLY x80, calendar-level MAX-SIMUL:%d, event-level %d) then %d+1 on-time ticks", T[which].cal, T[which].ev, eff);
+	vd_desc("%s", hist);
+	snprintf(shape, sizeof(shape), "sweep/calendar-limit-%s", T[which].ev ? "overridden-by-event" : "inherited");
+	if (T[which].ev) snprintf(evl, sizeof(evl), "X-ECHS-MAX-SIMUL:%d\n", T[which].ev);
+	o = (size_t)snprintf(req, sizeof(req), "BEGIN:VCALENDAR\nVERSION:2.0\nMETHOD:PUBLISH\nX-ECHS-MAX-SIMUL:%d\nBEGIN:VEVENT\nUID:X\nSUMMARY:job\nDTSTART:%s\nRRULE:FREQ=SECONDLY;COUNT=80\n%sEND:VEVENT\nEND:VCALENDAR\n",
+			     T[which].cal, (tpl_stamp(st0, sizeof(st0), HX_T0 + 1), st0), evl);
+	hx_request(&rp, 1000, req, o);
+	if (rp.nsucc != 1) { report("reply", shape, "task refused"); return; }
+	for (int k = 1; k <= eff + 1; k++) {
+		int before = hx_nspawns;
+		hx_tick(HX_T0 + k + 0.001);
+		VT->transitions++;
+		if (hx_nspawns != before + 1) {
+			report("spawn-count", shape, "tick %d: %d spawns instead of 1", k, hx_nspawns - before);
+			return;
+		}
+		if (hx_spawns[hx_nspawns - 1].nd != (k > eff)) {
+			report("spawn-mode", shape, "calendar says %d, the event says %d (0 = nothing), %d jobs alive: occurrence %d was started %s", T[which].cal, T[which].ev, k - 1 < eff ? k - 1 : eff, k,
+			       hx_spawns[hx_nspawns - 1].nd ? "with the no-run flag" : "for real");
+			return;
+		}
+	}
+	VT->traces++;
+}
+
 static void
 enumerate(void)
 {
@@ -1011,16 +1282,45 @@ enumerate(void)
 		hx_t0 = hx_now = strtod(vd_opt("t0", "0"), NULL);
 	}
 	hx_boot(1);
-	if (prop == 11) {
+	collide = !strcmp(vd_opt("uids", "plain"), "collide");
+	if (prop == 11 || collide) {
 		pick_colliding_uids();
 	}
 	memset(&M, 0, sizeof(M));
 	hist[0] = '\0';
 
 	hx_drift = strtod(vd_opt("drift", "0"), NULL);
-	narrow = !strcmp(vd_opt("alpha", "full"), "narrow");
+	narrow = !strcmp(vd_opt("alpha", "full"), "narrow") ? 1 : !strcmp(vd_opt("alpha", "full"), "narrow2") ? 2 : 0;
+	if (collide) narrow = narrow ? narrow : 1;
+	if (!strcmp(vd_opt("mode", "explore"), "busy")) {
+		const int nvar = (int)vd_opt_l("variants", 3);
+		for (int v = 0; v < nvar; v++) {
+			if (!vd_next()) continue;
+			vd_shape("busy/%d", v);
+			memset(VT, 0, sizeof(*VT));
+			fflush(stdout);
+			pid_t c = fork();
+			if (c == 0) {
+				prctl(PR_SET_PDEATHSIG, SIGKILL);
+				busy_mode(v);
+				fflush(stdout);
+				_exit(0);
+			}
+			int st;
+			while (waitpid(c, &st, 0) < 0 && errno == EINTR);
+			if (!(WIFEXITED(st) && WEXITSTATUS(st) == 0)) {
+				vd_viol("crash/busy", "daemon image died in busy history %d (status %#x)", v, st);
+			}
+			vd_count("states", VT->transitions + 1);
+			vd_count("transitions", VT->transitions);
+			vd_count("traces", VT->traces);
+			vd_nontrivial();
+			vd_sample("busy history %d: %ld requests", v, VT->transitions);
+		}
+		return;
+	}
 	if (!strcmp(vd_opt("mode", "explore"), "sweep")) {
-		for (int N = 1; N <= 62; N++) {
+		for (int N = 1; N <= 62 + 5; N++) {
 			if (!vd_next()) continue;
 			vd_shape("sweep/N=%d", N);
 			memset(VT, 0, sizeof(*VT));
@@ -1028,7 +1328,13 @@ enumerate(void)
 			pid_t c = fork();
 			if (c == 0) {
 				prctl(PR_SET_PDEATHSIG, SIGKILL);
-				sweep_limit(N);
+				if (N <= 62) {
+					sweep_limit(N);
+				} else if (N <= 64) {
+					sweep_unlimited(N == 63 ? 64 : 65);
+				} else {
+					sweep_inherit(N - 65);
+				}
 				fflush(stdout);
 				_exit(0);
 			}
@@ -1041,7 +1347,7 @@ enumerate(void)
 			vd_count("transitions", VT->transitions);
 			vd_count("traces", VT->traces);
 			vd_nontrivial();
-			vd_sample("MAX-SIMUL:%d: %d real starts, one refused, one exit, one real start", N, N);
+			if (N <= 62) vd_sample("MAX-SIMUL:%d: %d real starts, one refused, one exit, one real start", N, N);
 		}
 		return;
 	}
